@@ -89,3 +89,8 @@ claim("C18", "catchup",
       "The catch-up entry point is called on real nodes holding an absent / empty / arbitrary (incl. mid-reset) / removed-and-remembered copy with supplied states that are consistent or not; afterwards: no panic, frontier not lowered, copy unchanged or exactly the supplied key set merged by version, removed members stay absent, liveness at the next evaluation equals a twin's that did not receive the call, and follow-up honest gossip neither panics nor regresses. Exploration.",
       "Versions 0..12, <= 4 keys; follow-up gossip only after well-formed supplied states.",
       "DESIGN.md 4/C18")
+claim("C09", "hostile",
+      "structure-aware fuzzing with proptest generators (random, mutated, semantically arbitrary op streams) + libFuzzer targets; no-panic and invariant oracle",
+      "A victim node in a generated reachable state receives sequences of up to 20 datagrams (random bytes, messages from the independent encoder with syntactically valid but semantically arbitrary op streams and non-canonical blocks, and bit-flipped / truncated / spliced variants) interleaved with evaluations; decoding and processing must not panic, replies must serialize, per-copy frontiers stay monotone, live and dead stay disjoint with self live, and the node can still run a round afterwards. Exploration.",
+      "Id universe of 48 short ids (the statement's digest-fits precondition); memory/time exhaustion by decompression bombs is out of the statement and not generated.",
+      "DESIGN.md 4/C09")
